@@ -55,6 +55,19 @@ def gen_problem(rng, t):
             if lab["circ"] >= 0 and lab["block"] >= 0 and rng.random() < 0.5:
                 p.blockprops[lab["block"]]["J_re"] = rng.choice([0.25, -1.0])
                 p.blockprops[lab["block"]]["J_im"] = rng.choice([0.75, -0.5])
+        # at least one SOLID conductor in a circuit whose material has a source density of its own (the circuit row of the harmonic system
+        # then has to offset the whole of it): the regions of the first circuit in use get one turn, a conductivity and a complex J
+        cl = [lab for lab in p.labels if lab["circ"] >= 0 and lab["block"] >= 0]
+        if cl:
+            c0 = cl[0]["circ"]
+            for lab in cl:
+                if lab["circ"] == c0:
+                    lab["turns"] = 1
+                    m = p.blockprops[lab["block"]]
+                    m.pop("LamType", None); m.pop("LamFill", None)
+                    m["Sigma"] = m.get("Sigma") or rng.choice([10.0, 58.0])
+                    m["J_re"] = m.get("J_re") or rng.choice([0.25, -1.0])
+                    m["J_im"] = m.get("J_im") or rng.choice([0.75, -0.5])
         for b in p.bdryprops:
             if b["type"] == 0:
                 b["Phi"] = rng.choice([0.0, 30.0, 90.0])
